@@ -19,6 +19,17 @@ Lemma n_create_app l a b : n_create l (a ++ b) = (n_create l a + n_create l b)%n
 Proof. unfold n_create. rewrite filter_app, app_length. reflexivity. Qed.
 Lemma n_create_ev l es : n_create l (map Ev es) = 0%nat.
 Proof. induction es; simpl; auto. Qed.
+(* events that are no creator evaluation *)
+Definition quiet (es : list dev) : Prop := forallb (fun e => match e with ECreate _ _ _ => false | _ => true end) es = true.
+Lemma quiet_ev es : quiet (map Ev es).
+Proof. unfold quiet. induction es; simpl; auto. Qed.
+Lemma quiet_app a b : quiet a -> quiet b -> quiet (a ++ b).
+Proof. unfold quiet. rewrite forallb_app. intros -> ->. reflexivity. Qed.
+Lemma n_create_quiet l es : quiet es -> n_create l es = 0%nat.
+Proof.
+  unfold quiet, n_create. induction es as [|e es IH]; simpl; auto.
+  intro H. apply andb_true_iff in H. destruct H as [H1 H2]. destruct e; simpl; auto; discriminate.
+Qed.
 Lemma final_in_app_l k a b : final_in k a -> final_in k (a ++ b).
 Proof. unfold final_in. rewrite existsb_app. intros ->. reflexivity. Qed.
 Lemma final_in_app_r k a b : final_in k b -> final_in k (a ++ b).
@@ -130,18 +141,20 @@ Qed.
 Record keepr (d d' : dst) : Prop := {
   r_tab : q_tab d' = q_tab d; r_ld : q_ld d' = q_ld d; r_tg : q_tg d' = q_tg d;
   r_rxg : q_rxg d' = q_rxg d; r_grp : q_grp d' = q_grp d;
-  r_tr : exists es, q_tr d' = q_tr d ++ map Ev es;
+  r_tr : exists es, q_tr d' = q_tr d ++ es /\ quiet es;
   r_task : forall k, dn_task (node_of d' k) = dn_task (node_of d k) }.
 Lemma keep_keepr d d' : keep d d' -> keepr d d'.
-Proof. intros []. constructor; auto. exists []. simpl. rewrite app_nil_r. auto. Qed.
+Proof. intros []. constructor; auto. exists []. simpl. rewrite app_nil_r. split; [auto | reflexivity]. Qed.
 Lemma keepr_trans a b c : keepr a b -> keepr b c -> keepr a c.
 Proof.
   intros [] []. constructor; try congruence.
-  - destruct r_tr0 as [e1 H1]. destruct r_tr1 as [e2 H2]. exists (e1 ++ e2).
-    rewrite H2, H1, map_app, app_assoc. reflexivity.
+  - destruct r_tr0 as [e1 [H1 Q1]]. destruct r_tr1 as [e2 [H2 Q2]]. exists (e1 ++ e2).
+    rewrite H2, H1, app_assoc. split; [reflexivity | apply quiet_app; auto].
 Qed.
+Lemma keepr_emitq d es : quiet es -> keepr d (emitd d es).
+Proof. intro Q. constructor; auto. exists es. split; [reflexivity | exact Q]. Qed.
 Lemma keepr_emitd d es : keepr d (emitd d (map Ev es)).
-Proof. constructor; auto. exists es. reflexivity. Qed.
+Proof. apply keepr_emitq, quiet_ev. Qed.
 
 (* ---------- install / create_part / load_branch ---------- *)
 Lemma tab_get_set_tab d k t x : tab_get (set_tab d k t) x = if N.eqb x k then t else tab_get d x.
@@ -179,26 +192,31 @@ Proof.
 Qed.
 Lemma ld_same_upd_created ld T : ld_same ld (upd ld T (ld_created (ld T))).
 Proof. intro l. unfold upd. destruct (N.eqb_spec l T) as [->|]; simpl; auto. Qed.
-Lemma ld_same_mark d c : ld_same (q_ld d) (q_ld (mark_creator d c)).
-Proof. intro l. simpl. destruct (l_creator (q_ld d l) =? c); simpl; auto. Qed.
+Lemma ld_same_mark keys d c : ld_same (q_ld d) (q_ld (mark_creator keys d c)).
+Proof. intro l. simpl. destruct ((l_creator (q_ld d l) =? c) && referenced keys d l); simpl; auto. Qed.
+Lemma referenced_true keys d k l : In k keys -> dt_loader (tab_get d k) = Some l -> referenced keys d l = true.
+Proof.
+  intros Hk Hl. unfold referenced. apply existsb_exists. exists k. split; auto. rewrite Hl. apply N.eqb_refl.
+Qed.
 
 (* the trace after the creation part: unchanged, or one evaluation of the creator of loader T,
    which requires tasks[to_load].loader to be a loader that does not say created *)
-Definition tr_step (d : dst) (me T : name) (tr' : list dev) : Prop :=
+Definition tr_step (v : variant) (d : dst) (me T : name) (tr' : list dev) : Prop :=
   tr' = q_tr d \/
-  exists T' t, dt_loader (tab_get d (to_load_of d me T)) = Some T' /\ l_created (q_ld d T') = false /\
+  exists T' t, loader_read v d me T = Some T' /\ l_created (q_ld d T') = false /\
                tr' = q_tr d ++ [ECreate (l_creator (q_ld d T)) T t].
-(* ... and (repaired code) after an evaluation every loader of that creator says created *)
-Definition tr_mark (legacy : bool) (d : dst) (T : name) (tr' : list dev) (ld' : name -> loader) : Prop :=
-  tr' = q_tr d \/
-  (legacy = false -> forall l, l_creator (q_ld d l) = l_creator (q_ld d T) -> l_created (ld' l) = true).
+(* ... and (HEAD) after an evaluation every loader of that creator that a table entry (still) refers to says created *)
+Definition tr_mark (v : variant) (keys : list name) (d : dst) (T : name) (d' : dst) : Prop :=
+  q_tr d' = q_tr d \/
+  (v = VHead -> forall l k, In k keys -> dt_loader (tab_get d' k) = Some l ->
+                            l_creator (q_ld d l) = l_creator (q_ld d T) -> l_created (q_ld d' l) = true).
 
-Lemma create_part_spec legacy creators d me T d2 : create_part legacy creators d me T = Some d2 ->
+Lemma create_part_spec v keys creators d me T d2 : create_part v keys creators d me T = Some d2 ->
   q_nodes d2 = q_nodes d /\ ld_same (q_ld d) (q_ld d2) /\ q_rxg d2 = q_rxg d /\ q_grp d2 = q_grp d /\
-  tab_shrinks d d2 /\ tr_step d me T (q_tr d2) /\ tr_mark legacy d T (q_tr d2) (q_ld d2).
+  tab_shrinks d d2 /\ tr_step v d me T (q_tr d2) /\ tr_mark v keys d T d2.
 Proof.
   unfold create_part. intros H.
-  destruct (dt_loader (tab_get d (to_load_of d me T))) as [T'|] eqn:E1.
+  destruct (loader_read v d me T) as [T'|] eqn:E1.
   - destruct (l_created (q_ld d T')) eqn:E2.
     + inversion H; subst.
       split; [reflexivity|]. split; [apply ld_same_refl|]. split; [reflexivity|]. split; [reflexivity|].
@@ -206,30 +224,36 @@ Proof.
     + destruct (add_targets _ _) as [tg'|] eqn:E3; [|discriminate].
       inversion H; subst. clear H.
       match goal with |- context [install ?dd ?nn] => destruct (install_spec nn dd) as (H1 & H2 & H3 & H4 & H5 & H6 & H7) end.
-      assert (TS : tr_step d me T (q_tr d ++ [ECreate (l_creator (q_ld d T)) T (to_load_of d me T)])).
+      assert (TS : tr_step v d me T (q_tr d ++ [ECreate (l_creator (q_ld d T)) T (to_load_of d me T)])).
       { right. exists T', (to_load_of d me T). auto. }
-      destruct legacy; simpl.
-      * split; [exact H1|]. split; [rewrite H2; apply ld_same_refl|]. split; [exact H4|]. split; [exact H5|].
-        split; [exact H7|]. split; [rewrite H6; exact TS|]. right. discriminate.
-      * split; [exact H1|]. split.
-        { rewrite H2. intro l. simpl. destruct (l_creator (q_ld d l) =? l_creator (q_ld d T)); simpl; auto. }
-        split; [exact H4|]. split; [exact H5|]. split; [exact H7|]. split; [rewrite H6; exact TS|].
-        right. intros _ l Hl. rewrite H2. simpl. apply N.eqb_eq in Hl. rewrite Hl. reflexivity.
+      match goal with |- context [install ?dd ?nn] => set (d2 := install dd nn) in * end.
+      assert (Marked : let dm := mark_creator keys d2 (l_creator (q_ld d T)) in
+                q_nodes dm = q_nodes d /\ ld_same (q_ld d) (q_ld dm) /\ q_rxg dm = q_rxg d /\ q_grp dm = q_grp d /\
+                tab_shrinks d dm /\ tr_step v d me T (q_tr dm) /\ tr_mark v keys d T dm).
+      { split; [exact H1|]. split.
+        { simpl. rewrite H2. intro l. simpl.
+          destruct ((l_creator (q_ld d l) =? l_creator (q_ld d T)) && referenced keys d2 l); simpl; auto. }
+        split; [exact H4|]. split; [exact H5|]. split; [exact H7|]. split; [simpl; rewrite H6; exact TS|].
+        right. intros _ l k Hk Hl Hc. simpl. rewrite H2. simpl.
+        apply N.eqb_eq in Hc. rewrite Hc. rewrite (referenced_true keys d2 k l Hk Hl). reflexivity. }
+      destruct v; try exact Marked.
+      split; [exact H1|]. split; [rewrite H2; apply ld_same_refl|]. split; [exact H4|]. split; [exact H5|].
+      split; [exact H7|]. split; [rewrite H6; exact TS|]. right. discriminate.
   - inversion H; subst.
     split; [reflexivity|]. split; [apply ld_same_refl|]. split; [reflexivity|]. split; [reflexivity|].
     split; [intros k X HX; reflexivity|]. split; left; reflexivity.
 Qed.
 
-Lemma create_part_none legacy creators d me T : create_part legacy creators d me T = None ->
-  exists T', dt_loader (tab_get d (to_load_of d me T)) = Some T' /\ l_created (q_ld d T') = false.
+Lemma create_part_none v keys creators d me T : create_part v keys creators d me T = None ->
+  exists T', loader_read v d me T = Some T' /\ l_created (q_ld d T') = false.
 Proof.
   unfold create_part. intros H.
-  destruct (dt_loader (tab_get d (to_load_of d me T))) as [T'|] eqn:E1; [|discriminate].
+  destruct (loader_read v d me T) as [T'|] eqn:E1; [|discriminate].
   destruct (l_created (q_ld d T')) eqn:E2; [discriminate|]. exists T'. auto.
 Qed.
 
 (* what a successful pass through the loader branch does *)
-Record reset_spec (legacy : bool) (d : dst) (me T : name) (d' rs_d5 : dst) : Prop := {
+Record reset_spec (v : variant) (keys : list name) (d : dst) (me T : name) (d' rs_d5 : dst) : Prop := {
   rs_eq : d' = set_node rs_d5 me (nd_reset (node_of rs_d5 me) (tab_get rs_d5 me));
   rs_nodes : q_nodes rs_d5 = q_nodes d;
   rs_rxg : q_rxg rs_d5 = q_rxg d;
@@ -237,22 +261,22 @@ Record reset_spec (legacy : bool) (d : dst) (me T : name) (d' rs_d5 : dst) : Pro
   rs_T : l_created (q_ld rs_d5 T) = true;
   rs_tab : tab_shrinks d rs_d5;
   rs_me : dt_loader (tab_get rs_d5 me) = None;
-  rs_tr : tr_step d me T (q_tr rs_d5);
-  rs_mark : tr_mark legacy d T (q_tr rs_d5) (q_ld rs_d5) }.
+  rs_tr : tr_step v d me T (q_tr rs_d5);
+  rs_mark : tr_mark v keys d T rs_d5 }.
 
-Lemma load_branch_reset legacy creators d me T d' :
-  load_branch legacy creators d me T = LReset d' -> exists d5, reset_spec legacy d me T d' d5.
+Lemma load_branch_reset v keys creators d me T d' :
+  load_branch v keys creators d me T = LReset d' -> exists d5, reset_spec v keys d me T d' d5.
 Proof.
   unfold load_branch. intros H.
-  destruct (create_part legacy creators d me T) as [d2|] eqn:Ec; [|discriminate].
-  destruct (create_part_spec _ _ _ _ _ _ Ec) as (N2 & L2 & X2 & G2 & S2 & T2 & M2).
+  destruct (create_part v keys creators d me T) as [d2|] eqn:Ec; [|discriminate].
+  destruct (create_part_spec _ _ _ _ _ _ _ Ec) as (N2 & L2 & X2 & G2 & S2 & T2 & M2).
   (* common tail once the regex-group part produced (d3, fdep) *)
   assert (Tail : forall d3 fdep deps1,
     q_nodes d3 = q_nodes d2 -> q_ld d3 = q_ld d2 -> q_rxg d3 = q_rxg d2 -> q_tab d3 = q_tab d2 -> q_tr d3 = q_tr d2 ->
     let d4 := set_ld d3 T (ld_created (q_ld d3 T)) in
     let this' := dt_with (dn_task (node_of d2 me)) deps1 fdep None in
     let d5 := match dt_loader (tab_get d4 me) with Some _ => set_tab d4 me this' | None => d4 end in
-    exists d5', reset_spec legacy d me T (set_node d5 me (nd_reset (node_of d5 me) (tab_get d5 me))) d5').
+    exists d5', reset_spec v keys d me T (set_node d5 me (nd_reset (node_of d5 me) (tab_get d5 me))) d5').
   { intros d3 fdep deps1 N3 L3 X3 B3 R3 d4 this' d5.
     assert (S4 : tab_shrinks d d4).
     { intros k X HX. assert (E : tab_get d4 k = tab_get d2 k) by (unfold tab_get; simpl; rewrite B3; reflexivity).
@@ -271,8 +295,13 @@ Proof.
     - unfold d5. destruct (dt_loader (tab_get d4 me)) eqn:E; auto.
       rewrite tab_get_set_tab, N.eqb_refl. reflexivity.
     - rewrite Hr. exact T2.
-    - rewrite Hr. destruct M2 as [M2|M2]; [left; exact M2|]. right. intros Hl l Hc.
-      rewrite Hq. destruct (ld_same_upd_created (q_ld d2) T l) as (_ & _ & _ & Hm). apply Hm. apply M2; auto. }
+    - destruct M2 as [M2|M2]; [left; rewrite Hr; exact M2|]. right. intros Hl l k Hk Hkl Hc.
+      rewrite Hq. destruct (ld_same_upd_created (q_ld d2) T l) as (_ & _ & _ & Hm). apply Hm. apply (M2 Hl l k); auto.
+      (* an entry of d5 that has a loader is an entry of d2 *)
+      assert (E4 : forall x, tab_get d4 x = tab_get d2 x) by (intro x; unfold tab_get; simpl; rewrite B3; reflexivity).
+      unfold d5 in Hkl. destruct (dt_loader (tab_get d4 me)) eqn:E.
+      + rewrite tab_get_set_tab in Hkl. destruct (N.eqb k me); [discriminate Hkl|]. rewrite E4 in Hkl. exact Hkl.
+      + rewrite E4 in Hkl. exact Hkl. }
   destruct (q_rxg d2 me) as [g|] eqn:Eg.
   - destruct (q_tg d2 (g_target (q_grp d2 g))) eqn:Et.
     + inversion H; subst. apply (Tail (set_grp d2 g _)); reflexivity.
@@ -284,21 +313,21 @@ Proof.
 Qed.
 
 (* the trace after an unsuccessful pass *)
-Lemma load_branch_error legacy creators d me T :
-  match load_branch legacy creators d me T with
+Lemma load_branch_error v keys creators d me T :
+  match load_branch v keys creators d me T with
   | LReset _ => True
-  | LInvalidTask d' | LNotFound _ d' | LKeyError d' => tr_step d me T (q_tr d')
+  | LInvalidTask d' | LNotFound _ d' | LKeyError d' => tr_step v d me T (q_tr d')
   end.
 Proof.
   unfold load_branch.
-  destruct (create_part legacy creators d me T) as [d2|] eqn:Ec.
-  - destruct (create_part_spec _ _ _ _ _ _ Ec) as (N2 & L2 & X2 & G2 & S2 & T2 & M2).
+  destruct (create_part v keys creators d me T) as [d2|] eqn:Ec.
+  - destruct (create_part_spec _ _ _ _ _ _ _ Ec) as (N2 & L2 & X2 & G2 & S2 & T2 & M2).
     destruct (q_rxg d2 me) as [g|]; auto.
     destruct (q_tg d2 (g_target (q_grp d2 g))); auto.
     destruct (l_basename (q_ld d2 T)) as [b|]; auto.
     destruct (mem b (g_tasks (q_grp d2 g))); auto.
     destruct (is_nil (rem b (g_tasks (q_grp d2 g)))); auto.
-  - destruct (create_part_none _ _ _ _ _ Ec) as (T' & H1 & H2).
+  - destruct (create_part_none _ _ _ _ _ _ Ec) as (T' & H1 & H2).
     right. exists T', (to_load_of d me T). auto.
 Qed.
 
@@ -306,16 +335,17 @@ Qed.
 (* C15 part 1: a creator is evaluated at most once per run (repaired code)                 *)
 (* ====================================================================================== *)
 Section Once.
+Variable keys : list name.
 Variable creators : N -> name -> list (name * dtask).
 Variable wake_rank : name -> name -> N.
 Variable calc_rank : name -> N.
 Variable bn : name -> option name.       (* loader.basename as _filter_tasks left it: constant during the run *)
 Variable cr : name -> N.                 (* loader.creator: constant *)
 
-Notation gen_step := (gen_step false creators calc_rank).
-Notation disp_run := (disp_run false creators calc_rank).
-Notation disp_send := (disp_send false creators wake_rank calc_rank).
-Notation load_branch := (load_branch false creators).
+Notation gen_step := (gen_step VHead keys creators calc_rank).
+Notation disp_run := (disp_run VHead keys creators calc_rank).
+Notation disp_send := (disp_send VHead keys creators wake_rank calc_rank).
+Notation load_branch := (load_branch VHead keys creators).
 
 Definition tl (me T : name) : name := match bn T with Some b => b | None => me end.
 
@@ -324,7 +354,11 @@ Record inv1 (d : dst) : Prop := {
   i_c : forall T, l_creator (q_ld d T) = cr T;
   (* tasks[to_load].loader is the loader object of the task being processed, or already DelayedLoaded *)
   i_wf : forall k T T', nl d k = Some T -> dt_loader (tab_get d (tl k T)) = Some T' -> T' = T;
-  i_cr : forall l, l_created (q_ld d l) = false -> n_create (cr l) (q_tr d) = 0%nat;
+  (* [keys] covers every table entry that has a loader *)
+  i_keys : forall k T, dt_loader (tab_get d k) = Some T -> In k keys;
+  (* the creator of a loader object that some table entry still refers to and that does not say created has not run;
+     (the copy held only by a stale placeholder node may say False although its creator ran: its flag is not read) *)
+  i_cr : forall l k, dt_loader (tab_get d k) = Some l -> l_created (q_ld d l) = false -> n_create (cr l) (q_tr d) = 0%nat;
   i_n : forall c, (n_create c (q_tr d) <= 1)%nat }.
 Definition weak1 (d : dst) : Prop := forall c, (n_create c (q_tr d) <= 1)%nat.
 
@@ -333,14 +367,16 @@ Proof. unfold tab_get. intros ->. reflexivity. Qed.
 
 Lemma inv1_keepr d d' : keepr d d' -> inv1 d -> inv1 d'.
 Proof.
-  intros [] []. destruct r_tr0 as [es Hes].
+  intros [] []. destruct r_tr0 as [es [Hes Q]].
   constructor.
   - intro T. rewrite r_ld0. auto.
   - intro T. rewrite r_ld0. auto.
   - intros k T T' H1 H2. unfold nl in H1. rewrite r_task0 in H1.
     rewrite (tab_get_eq d d') in H2 by auto. eapply i_wf0; eauto.
-  - intros l H. rewrite r_ld0 in H. rewrite Hes, n_create_app, n_create_ev, i_cr0; auto.
-  - intro l. rewrite Hes, n_create_app, n_create_ev. specialize (i_n0 l). lia.
+  - intros k T H. rewrite (tab_get_eq d d') in H by auto. eapply i_keys0; eauto.
+  - intros l k Hk H. rewrite r_ld0 in H. rewrite (tab_get_eq d d') in Hk by auto.
+    rewrite Hes, n_create_app, (n_create_quiet _ _ Q), (i_cr0 l k); auto.
+  - intro l. rewrite Hes, n_create_app, (n_create_quiet _ _ Q). specialize (i_n0 l). lia.
 Qed.
 Lemma inv1_keep d d' : keep d d' -> inv1 d -> inv1 d'.
 Proof. intro H. apply inv1_keepr. apply keep_keepr. exact H. Qed.
@@ -353,13 +389,14 @@ Proof. intros []. unfold to_load_of, tl. rewrite i_bn0. reflexivity. Qed.
 Lemma n_create_one c c0 T t : n_create c [ECreate c0 T t] = if N.eqb c0 c then 1%nat else 0%nat.
 Proof. unfold n_create. simpl. destruct (N.eqb c0 c); reflexivity. Qed.
 
-Lemma tr_step_weak d me T tr' : inv1 d -> nl d me = Some T -> tr_step d me T tr' ->
+Lemma tr_step_weak d me T tr' : inv1 d -> nl d me = Some T -> tr_step VHead d me T tr' ->
   forall c, (n_create c tr' <= 1)%nat.
 Proof.
   intros I Hnl [->|(T' & t & H1 & H2 & ->)] c; [apply (i_n _ I)|].
+  unfold loader_read in H1.
   rewrite (to_load_tl _ _ _ I) in H1. pose proof (i_wf _ I _ _ _ Hnl H1) as ->.
   rewrite n_create_app, n_create_one, (i_c _ I). destruct (N.eqb_spec (cr T) c) as [<-|].
-  - rewrite (i_cr _ I T H2). lia.
+  - rewrite (i_cr _ I T _ H1 H2). lia.
   - pose proof (i_n _ I c). lia.
 Qed.
 
@@ -373,7 +410,7 @@ Qed.
 Lemma inv1_reset d me T d' : inv1 d -> nl d me = Some T ->
   load_branch d me T = LReset d' -> inv1 d'.
 Proof.
-  intros I Hnl H. destruct (load_branch_reset _ _ _ _ _ _ H) as [d5 []].
+  intros I Hnl H. destruct (load_branch_reset _ _ _ _ _ _ _ H) as [d5 []].
   assert (Hnl' : forall k X, nl d' k = Some X -> k <> me /\ nl d k = Some X).
   { intros k X HX. subst d'. unfold nl in HX. rewrite node_of_set_node in HX.
     destruct (N.eqb_spec k me) as [->|Hne].
@@ -387,15 +424,19 @@ Proof.
   - intro l. rewrite Hld. destruct (rs_ld0 l) as (_ & _ & -> & _). apply (i_c _ I).
   - intros k X T' H1 H2. apply Hnl' in H1. destruct H1 as [_ H1].
     rewrite Htab in H2. apply (tab_shrinks_loader _ _ _ _ rs_tab0) in H2. eapply (i_wf _ I); eauto.
-  - intros l Hc. rewrite Hld in Hc. destruct (rs_ld0 l) as (_ & _ & _ & Hm).
+  - intros k X HX. rewrite Htab in HX. apply (tab_shrinks_loader _ _ _ _ rs_tab0) in HX. eapply (i_keys _ I); eauto.
+  - intros l k Hk Hc. rewrite Hld in Hc. destruct (rs_ld0 l) as (_ & _ & _ & Hm).
     assert (Hc0 : l_created (q_ld d l) = false).
     { destruct (l_created (q_ld d l)); auto. rewrite Hm in Hc; auto. }
-    rewrite Htr. destruct rs_tr0 as [E|(T' & t & H1 & H2 & E)]; rewrite E; [apply (i_cr _ I); auto|].
-    rewrite n_create_app, n_create_one, (i_cr _ I l Hc0), (i_c _ I).
+    rewrite Htab in Hk. pose proof (tab_shrinks_loader _ _ _ _ rs_tab0 Hk) as Hk0.
+    rewrite Htr. destruct rs_tr0 as [E|(T' & t & H1 & H2 & E)]; rewrite E; [apply (i_cr _ I l k); auto|].
+    rewrite n_create_app, n_create_one, (i_cr _ I l k Hk0 Hc0), (i_c _ I).
     destruct (N.eqb_spec (cr T) (cr l)) as [Heq|]; [|reflexivity].
     exfalso. destruct rs_mark0 as [M|M].
     + rewrite E in M. apply (f_equal (@length dev)) in M. rewrite app_length in M. simpl in M. lia.
-    + rewrite (M eq_refl l) in Hc; [discriminate|]. rewrite !(i_c _ I). auto.
+    + rewrite (M eq_refl l k) in Hc; [discriminate| |exact Hk|].
+      * eapply (i_keys _ I); eauto.
+      * rewrite !(i_c _ I). auto.
   - rewrite Htr. eapply tr_step_weak; eauto.
 Qed.
 
@@ -437,7 +478,7 @@ Proof.
       * destruct (negb (is_nil (dn_wrun (node_of d1 me))) || negb (is_nil (dn_wcalc (node_of d1 me)))).
         -- apply Stop. eapply inv1_keep; [apply keep_set_pc | exact I1].
         -- destruct (dt_loader (dn_task (node_of d1 me))) as [T|] eqn:El.
-           ++ pose proof (load_branch_error false creators d1 me T) as He.
+           ++ pose proof (load_branch_error VHead keys creators d1 me T) as He.
               destruct (load_branch d1 me T) as [d2|d2|f d2|d2] eqn:Elb.
               ** apply IH. eapply inv1_reset; eauto.
               ** simpl. split; [|discriminate]. intro l. eapply tr_step_weak; eauto.
@@ -584,19 +625,27 @@ Lemma keepr_finish r : keepr (r_d r) (r_d (finish r)).
 Proof. unfold finish. apply keepr_emit. Qed.
 End RunnerSteps.
 
+Lemma quiet_op c a : quiet [EOp c a].
+Proof. reflexivity. Qed.
+Lemma keepr_emitr r es : quiet es -> keepr (r_d r) (r_d (emitr r es)).
+Proof. intro Q. unfold emitr. cbn [r_d with_d]. apply keepr_emitq. exact Q. Qed.
+
 Section OnceRun.
+Variable keys : list name.
 Variable creators : N -> name -> list (name * dtask).
 Variable wake_rank : name -> name -> N.
 Variable calc_rank : name -> N.
 Variable bn : name -> option name.
 Variable cr : name -> N.
 Variable continue_ always : bool.
-Notation serial := (serial false creators wake_rank calc_rank continue_ always).
-Notation inv1 := (inv1 bn cr).
+Notation serial := (serial VHead keys creators wake_rank calc_rank continue_ always).
+Notation run_op := (run_op VHead keys creators wake_rank calc_rank continue_ always).
+Notation step_op := (step_op VHead keys creators wake_rank calc_rank continue_ always).
+Notation inv1 := (inv1 keys bn cr).
 
 Lemma weak1_keepr d d' : keepr d d' -> weak1 d -> weak1 d'.
 Proof.
-  intros [] W l. destruct r_tr0 as [es ->]. rewrite n_create_app, n_create_ev. specialize (W l). lia.
+  intros [] W l. destruct r_tr0 as [es [-> Q]]. rewrite n_create_app, (n_create_quiet _ _ Q). specialize (W l). lia.
 Qed.
 
 Lemma serial_weak1 fuel : forall r last, inv1 (r_d r) -> weak1 (r_d (fst (serial fuel r last))).
@@ -605,8 +654,8 @@ Proof.
   { simpl. eapply inv1_weak; eauto. }
   destruct (r_stop r).
   { simpl. eapply weak1_keepr; [apply keepr_finish | eapply inv1_weak; eauto]. }
-  pose proof (disp_send_inv1 creators wake_rank calc_rank bn cr (S fuel) (r_d r) last I) as [W G].
-  destruct (disp_send false creators wake_rank calc_rank (S fuel) (r_d r) last) as [y d]. simpl in W, G.
+  pose proof (disp_send_inv1 keys creators wake_rank calc_rank bn cr (S fuel) (r_d r) last I) as [W G].
+  destruct (disp_send VHead keys creators wake_rank calc_rank (S fuel) (r_d r) last) as [y d]. simpl in W, G.
   destruct y; cbn [fst];
     try (eapply weak1_keepr; [apply (keepr_finish (with_d r d)) | exact W]).
   - (* DTask *)
@@ -628,13 +677,93 @@ Qed.
 
 (* the statement used by Properties/C15.v *)
 Theorem creator_once fuel d0 c :
-  inv1 d0 -> (n_create c (fst (run_serial false creators wake_rank calc_rank continue_ always fuel d0)) <= 1)%nat.
+  inv1 d0 -> (n_create c (fst (run_serial VHead keys creators wake_rank calc_rank continue_ always fuel d0)) <= 1)%nat.
 Proof.
   intro I. unfold run_serial.
   pose proof (serial_weak1 fuel (r_init d0) None I c) as W.
-  destruct (Delayed.serial false creators wake_rank calc_rank continue_ always fuel (r_init d0) None) as [r s].
+  destruct (Delayed.serial VHead keys creators wake_rank calc_rank continue_ always fuel (r_init d0) None) as [r s].
   simpl in *. rewrite n_create_app.
   assert (n_create c (stop_marker s) = 0%nat) by (destruct s; reflexivity). lia.
+Qed.
+
+(* ---- the same for every script of runner calls (any runner, any schedule) ---- *)
+Lemma run_op_inv1 fuel r o : inv1 (r_d r) ->
+  weak1 (r_d (fst (run_op fuel r o))) /\ (live (snd (run_op fuel r o)) = true -> inv1 (r_d (fst (run_op fuel r o)))).
+Proof.
+  intro I.
+  assert (Both : forall r1 s1, inv1 (r_d r1) -> weak1 (r_d (fst (r1, s1))) /\ (live (snd (r1, s1)) = true -> inv1 (r_d (fst (r1, s1)))))
+    by (intros r1 s1 H; simpl; split; auto; eapply inv1_weak; eauto).
+  destruct o; cbn [Delayed.run_op].
+  - (* OSend *)
+    set (r0 := emitr r _).
+    assert (I0 : inv1 (r_d r0)) by (eapply inv1_keepr; [apply keepr_emitr, quiet_op | exact I]).
+    destruct (sent_ok (r_d r) p).
+    + pose proof (disp_send_inv1 keys creators wake_rank calc_rank bn cr fuel (r_d r0) p I0) as [W G].
+      destruct (disp_send VHead keys creators wake_rank calc_rank fuel (r_d r0) p) as [y d]. simpl in W, G.
+      destruct y;
+        try (apply Both; eapply inv1_keepr; [apply (keepr_emitr (with_d r0 d)), quiet_op | apply G; reflexivity]);
+        cbn [fst snd live];
+        try (split; [exact W | discriminate]).
+      split; [|discriminate]. cbn [r_d with_d]. eapply weak1_keepr; [apply keepr_emitq | exact W]. reflexivity.
+    + split; [eapply inv1_weak; exact I0 | discriminate].
+  - (* OSelect *)
+    set (r0 := emitr r _).
+    assert (I0 : inv1 (r_d r0)) by (eapply inv1_keepr; [apply keepr_emitr, quiet_op | exact I]).
+    pose proof (keepr_select_task continue_ always r0 k) as Hs.
+    destruct (select_task continue_ always r0 k) as [b r1]. simpl in Hs.
+    apply Both. eapply inv1_keepr; [apply keepr_emitr, quiet_op|]. eapply inv1_keepr; eauto.
+  - (* OExec *) apply Both. eapply inv1_keepr; [apply keepr_start_task | exact I].
+  - (* OResult *)
+    apply Both. eapply inv1_keepr; [apply keepr_process_result|].
+    eapply inv1_keepr; [apply keepr_emitr, quiet_op | exact I].
+  - (* OHoldErr *) split; [eapply inv1_weak; exact I | discriminate].
+  - (* OFinish *)
+    apply Both. eapply inv1_keepr; [apply keepr_finish|].
+    eapply inv1_keepr; [apply keepr_emitr, quiet_op | exact I].
+Qed.
+
+Lemma keepr_run_op_finish fuel r : keepr (r_d r) (r_d (fst (run_op fuel r OFinish))).
+Proof.
+  cbn [Delayed.run_op fst]. eapply keepr_trans; [apply keepr_emitr, quiet_op | apply keepr_finish].
+Qed.
+
+Definition sP (rs : rstate * option stop) : Prop :=
+  weak1 (r_d (fst rs)) /\ (live (snd rs) = true -> inv1 (r_d (fst rs))).
+
+Lemma step_op_sP fuel rs o : sP rs -> sP (step_op fuel rs o).
+Proof.
+  destruct rs as [r s]. intros [W I]. cbn [fst snd] in W, I. unfold Delayed.step_op.
+  destruct (live s) eqn:El.
+  - specialize (I eq_refl).
+    assert (Run : sP (let '(r1, s1) := run_op fuel r o in (r1, merge_stop s s1))).
+    { pose proof (run_op_inv1 fuel r o I) as [W1 I1].
+      destruct (run_op fuel r o) as [r1 s1]. cbn [fst snd] in *. split; cbn [fst snd]; auto.
+      intro Hl. apply I1. destruct s1; auto. }
+    destruct s as [x|]; [|exact Run].
+    destruct o; try exact Run.
+    split; cbn [fst snd].
+    + eapply weak1_keepr; [apply keepr_emitr; reflexivity | exact W].
+    + intros _. eapply inv1_keepr; [apply keepr_emitr; reflexivity | exact I].
+  - destruct o; try (split; cbn [fst snd]; [exact W | rewrite El; discriminate]).
+    split; cbn [fst snd]; [|rewrite El; discriminate].
+    eapply weak1_keepr; [apply keepr_run_op_finish | exact W].
+Qed.
+
+Lemma run_ops_sP fuel ops : forall rs, sP rs -> sP (fold_left (step_op fuel) ops rs).
+Proof.
+  induction ops as [|o ops IH]; intros rs H; simpl; auto. apply IH. apply step_op_sP. exact H.
+Qed.
+
+Theorem creator_once_script fuel ops d0 c :
+  inv1 d0 -> (n_create c (fst (run_script VHead keys creators wake_rank calc_rank continue_ always fuel ops d0)) <= 1)%nat.
+Proof.
+  intro I. unfold run_script, run_ops.
+  assert (H0 : sP (r_init d0, None)) by (split; cbn [fst snd r_init r_d]; [eapply inv1_weak; exact I | intros _; exact I]).
+  pose proof (run_ops_sP fuel ops _ H0) as [W _].
+  destruct (fold_left (step_op fuel) ops (r_init d0, None)) as [r s]. cbn [fst snd] in *.
+  rewrite n_create_app.
+  assert (n_create c (stop_marker (stop_of s)) = 0%nat) by (destruct s as [[]|]; reflexivity).
+  specialize (W c). lia.
 Qed.
 End OnceRun.
 
@@ -651,9 +780,13 @@ Record init_ok (d : dst) : Prop := {
 Lemma nl_init d k : (forall k, q_nodes d k = None) -> nl d k = dt_loader (tab_get d k).
 Proof. intro H. unfold nl, node_of. rewrite H. reflexivity. Qed.
 
-Lemma init_inv1 d : init_ok d -> inv1 (fun T => l_basename (q_ld d T)) (fun T => l_creator (q_ld d T)) d.
+(* [keys] (the enumeration of the task table used by the marking loop 497-499) covers every entry with a loader *)
+Definition keys_ok (keys : list name) (d : dst) : Prop := forall k T, dt_loader (tab_get d k) = Some T -> In k keys.
+
+Lemma init_inv1 keys d : init_ok d -> keys_ok keys d ->
+  inv1 keys (fun T => l_basename (q_ld d T)) (fun T => l_creator (q_ld d T)) d.
 Proof.
-  intros []. constructor; auto.
+  intros [] HK. constructor; auto.
   - intros k T T' H1 H2. rewrite nl_init in H1 by auto. unfold tl in H2.
     destruct (l_basename (q_ld d T)) as [b|] eqn:E.
     + apply io_bn0 in E. congruence.
@@ -677,6 +810,15 @@ Proof.
   - rewrite app_nil_r. exact H.
   - change (Ev a :: map Ev es) with ([Ev a] ++ map Ev es). rewrite app_assoc. apply IH.
     constructor; auto. intros; discriminate.
+Qed.
+
+Lemma ok_tr_app_quiet ex es : quiet es -> forall tr, ok_tr ex tr -> ok_tr ex (tr ++ es).
+Proof.
+  unfold quiet. induction es as [|a es IH]; intros Q tr H; simpl.
+  - rewrite app_nil_r. exact H.
+  - simpl in Q. apply andb_true_iff in Q. destruct Q as [Q1 Q2].
+    change (a :: es) with ([a] ++ es). rewrite app_assoc. apply IH; auto.
+    constructor; auto. intros c l t e E. subst a. discriminate.
 Qed.
 
 Lemma ok_tr_split ex tr : ok_tr ex tr ->
@@ -736,7 +878,8 @@ Section Trigger.
 Variable creators : N -> name -> list (name * dtask).
 Variable wake_rank : name -> name -> N.
 Variable calc_rank : name -> N.
-Variable legacy : bool.
+Variable v : variant.
+Variable keys : list name.
 Variable ex : name -> option name.       (* loader.task_dep (`executed`): constant *)
 
 Definition En (nd : dnode) : Prop :=
@@ -1012,7 +1155,7 @@ Qed.
 (* ---- the loader branch ---- *)
 Lemma tr_step_ok d me T tr' : inv2 d -> nl d me = Some T ->
   (forall x, In x (dn_at (node_of d me)) -> fin d x = true) ->
-  tr_step d me T tr' -> ok_tr ex tr' /\ (forall k, final_in k (q_tr d) -> final_in k tr').
+  tr_step v d me T tr' -> ok_tr ex tr' /\ (forall k, final_in k (q_tr d) -> final_in k tr').
 Proof.
   intros I Hnl Hall [->|(T' & t & _ & _ & ->)].
   - split; auto. apply (j_tr _ I).
@@ -1027,9 +1170,9 @@ Proof. intro H. unfold st_of, node_of. rewrite H. destruct (q_nodes d k); reflex
 
 Lemma inv2_load_reset d me T d' : inv2 d -> nl d me = Some T ->
   (forall x, In x (dn_at (node_of d me)) -> fin d x = true) ->
-  load_branch legacy creators d me T = LReset d' -> inv2 d'.
+  load_branch v keys creators d me T = LReset d' -> inv2 d'.
 Proof.
-  intros I Hnl Hall H. destruct (load_branch_reset _ _ _ _ _ _ H) as [d5 []].
+  intros I Hnl Hall H. destruct (load_branch_reset _ _ _ _ _ _ _ H) as [d5 []].
   destruct (tr_step_ok d me T (q_tr d5) I Hnl Hall rs_tr0) as [Hok Hfin].
   assert (F5 : forall y, fin d5 y = fin d y) by (intro y; unfold fin; rewrite (st_of_nodes_eq d d5); auto).
   assert (F' : forall y, fin d' y = fin d y).
@@ -1056,19 +1199,19 @@ Qed.
 
 Lemma ok_load_error d me T : inv2 d -> nl d me = Some T ->
   (forall x, In x (dn_at (node_of d me)) -> fin d x = true) ->
-  match load_branch legacy creators d me T with
+  match load_branch v keys creators d me T with
   | LReset _ => True
   | LInvalidTask d' | LNotFound _ d' | LKeyError d' => ok_tr ex (q_tr d')
   end.
 Proof.
-  intros I Hnl Hall. pose proof (load_branch_error legacy creators d me T) as He.
-  destruct (load_branch legacy creators d me T); auto; eapply tr_step_ok; eauto.
+  intros I Hnl Hall. pose proof (load_branch_error v keys creators d me T) as He.
+  destruct (load_branch v keys creators d me T); auto; eapply tr_step_ok; eauto.
 Qed.
 
 (* ---- node.step() ---- *)
 Lemma gen_step_inv2 fuel : forall d me, inv2 d ->
-  ok_tr ex (q_tr (snd (gen_step legacy creators calc_rank fuel d me))) /\
-  (y_ok (fst (gen_step legacy creators calc_rank fuel d me)) = true -> inv2 (snd (gen_step legacy creators calc_rank fuel d me))).
+  ok_tr ex (q_tr (snd (gen_step v keys creators calc_rank fuel d me))) /\
+  (y_ok (fst (gen_step v keys creators calc_rank fuel d me)) = true -> inv2 (snd (gen_step v keys creators calc_rank fuel d me))).
 Proof.
   induction fuel as [|fuel IH]; intros d me I; cbn [gen_step].
   { simpl. split; auto. apply (j_tr _ I). }
@@ -1119,7 +1262,7 @@ Proof.
                 - destruct (Hpend x A) as [[]|[B|B]]; auto. rewrite E2 in B. destruct B.
                 - rewrite E2 in A. destruct A. }
               pose proof (ok_load_error d1 me T ar_inv0 El Hall) as He.
-              destruct (load_branch legacy creators d1 me T) as [d2|d2|f d2|d2] eqn:Elb.
+              destruct (load_branch v keys creators d1 me T) as [d2|d2|f d2|d2] eqn:Elb.
               ** apply IH. eapply inv2_load_reset; eauto.
               ** simpl. split; [exact He | discriminate].
               ** simpl. split; [exact He | discriminate].
@@ -1152,14 +1295,14 @@ Proof.
 Qed.
 
 Lemma disp_run_inv2 fuel : forall d, inv2 d ->
-  ok_tr ex (q_tr (snd (disp_run legacy creators calc_rank fuel d))) /\
-  (dy_ok (fst (disp_run legacy creators calc_rank fuel d)) = true -> inv2 (snd (disp_run legacy creators calc_rank fuel d))).
+  ok_tr ex (q_tr (snd (disp_run v keys creators calc_rank fuel d))) /\
+  (dy_ok (fst (disp_run v keys creators calc_rank fuel d)) = true -> inv2 (snd (disp_run v keys creators calc_rank fuel d))).
 Proof.
   induction fuel as [|fuel IH]; intros d I; cbn [disp_run].
   { simpl. split; auto. apply (j_tr _ I). }
   destruct (q_cur d) as [me|].
   - pose proof (gen_step_inv2 (S (S fuel)) d me I) as [W G].
-    destruct (gen_step legacy creators calc_rank (S (S fuel)) d me) as [y d1]. simpl in W, G.
+    destruct (gen_step v keys creators calc_rank (S (S fuel)) d me) as [y d1]. simpl in W, G.
     destruct y; simpl; try (split; [exact W | auto; discriminate]); apply IH.
     + apply inv2_set_ready. apply G. reflexivity.
     + apply inv2_set_cur, inv2_set_waiting. apply G. reflexivity.
@@ -1174,9 +1317,9 @@ Proof.
 Qed.
 
 Lemma disp_send_inv2 fuel d p : inv2 d -> (forall k, p = Some k -> dn_st (node_of d k) <> SNone) ->
-  ok_tr ex (q_tr (snd (disp_send legacy creators wake_rank calc_rank fuel d p))) /\
-  (dy_ok (fst (disp_send legacy creators wake_rank calc_rank fuel d p)) = true ->
-   inv2 (snd (disp_send legacy creators wake_rank calc_rank fuel d p))).
+  ok_tr ex (q_tr (snd (disp_send v keys creators wake_rank calc_rank fuel d p))) /\
+  (dy_ok (fst (disp_send v keys creators wake_rank calc_rank fuel d p)) = true ->
+   inv2 (snd (disp_send v keys creators wake_rank calc_rank fuel d p))).
 Proof.
   intros I Hp. unfold disp_send. apply disp_run_inv2. apply inv2_update_waiting; auto.
 Qed.
@@ -1316,17 +1459,17 @@ Proof.
 Qed.
 
 Lemma ok_keepr d d' : keepr d d' -> ok_tr ex (q_tr d) -> ok_tr ex (q_tr d').
-Proof. intros [] H. destruct r_tr0 as [es ->]. apply ok_tr_app_ev. exact H. Qed.
+Proof. intros [] H. destruct r_tr0 as [es [-> Q]]. apply ok_tr_app_quiet; auto. Qed.
 
 Lemma serial_ok fuel : forall r last, inv2 (r_d r) -> (forall k, last = Some k -> stk r k <> SNone) ->
-  ok_tr ex (q_tr (r_d (fst (serial legacy creators wake_rank calc_rank continue_ always fuel r last)))).
+  ok_tr ex (q_tr (r_d (fst (serial v keys creators wake_rank calc_rank continue_ always fuel r last)))).
 Proof.
   induction fuel as [|fuel IH]; intros r last I Hl; cbn [serial].
   { simpl. apply (j_tr _ I). }
   destruct (r_stop r).
   { cbn [fst]. eapply ok_keepr; [apply keepr_finish | apply (j_tr _ I)]. }
   pose proof (disp_send_inv2 (S fuel) (r_d r) last I Hl) as [W G].
-  destruct (disp_send legacy creators wake_rank calc_rank (S fuel) (r_d r) last) as [y d]. simpl in W, G.
+  destruct (disp_send v keys creators wake_rank calc_rank (S fuel) (r_d r) last) as [y d]. simpl in W, G.
   destruct y; cbn [fst];
     try (eapply ok_keepr; [apply (keepr_finish (with_d r d)) | exact W]).
   - (* DTask *)
@@ -1343,6 +1486,89 @@ Proof.
     cbn [r_d with_d emitd q_tr]. constructor; auto. intros; discriminate.
   - exact W.
 Qed.
+
+(* ---- the same for every script of runner calls ---- *)
+Lemma inv2_emitq r es : quiet es -> inv2 (r_d r) -> inv2 (r_d (emitr r es)).
+Proof.
+  intros Q I. unfold emitr. cbn [r_d with_d]. destruct I. constructor; auto.
+  - intros x Hx. cbn [emitd q_tr]. apply final_in_app_l. apply j_fin0. exact Hx.
+  - cbn [emitd q_tr]. apply ok_tr_app_quiet; auto.
+Qed.
+
+Lemma inv2_process_result r k : inv2 (r_d r) -> inv2 (r_d (process_result continue_ r k)).
+Proof.
+  intro I. unfold process_result. destruct (t_outcome (task_of r k));
+    try (apply good_handle_error; exact I); try (apply good_handle_error_gen; [reflexivity | exact I]).
+  - apply (inv2_status_emit (r_d r) k SSuccess [ESave k; ESuccess k]); auto. intros _.
+    unfold final_in. simpl. rewrite N.eqb_refl. reflexivity.
+  - exact I.
+Qed.
+
+Notation run_op := (run_op v keys creators wake_rank calc_rank continue_ always).
+Notation step_op := (step_op v keys creators wake_rank calc_rank continue_ always).
+
+Lemma run_op_inv2 fuel r o : inv2 (r_d r) ->
+  ok_tr ex (q_tr (r_d (fst (run_op fuel r o)))) /\ (live (snd (run_op fuel r o)) = true -> inv2 (r_d (fst (run_op fuel r o)))).
+Proof.
+  intro I.
+  assert (Both : forall r1 s1, inv2 (r_d r1) -> ok_tr ex (q_tr (r_d (fst (r1, s1)))) /\ (live (snd (r1, s1)) = true -> inv2 (r_d (fst (r1, s1)))))
+    by (intros r1 s1 H; simpl; split; auto; apply (j_tr _ H)).
+  destruct o; cbn [Delayed.run_op].
+  - (* OSend *)
+    set (r0 := emitr r _).
+    assert (I0 : inv2 (r_d r0)) by (apply inv2_emitq; [apply quiet_op | exact I]).
+    destruct (sent_ok (r_d r) p) eqn:Es.
+    + assert (Hp : forall k, p = Some k -> dn_st (node_of (r_d r0) k) <> SNone).
+      { intros k ->. unfold sent_ok, st_of in Es. change (node_of (r_d r0) k) with (node_of (r_d r) k).
+        destruct (dn_st (node_of (r_d r) k)); discriminate. }
+      pose proof (disp_send_inv2 fuel (r_d r0) p I0 Hp) as [W G].
+      destruct (disp_send v keys creators wake_rank calc_rank fuel (r_d r0) p) as [y d]. simpl in W, G.
+      destruct y;
+        try (apply Both; apply (inv2_emitq (with_d r0 d)); [apply quiet_op | apply G; reflexivity]);
+        cbn [fst snd live];
+        try (split; [exact W | discriminate]).
+      split; [|discriminate]. cbn [r_d with_d emitd q_tr]. apply ok_tr_app_quiet; [reflexivity | exact W].
+    + split; [apply (j_tr _ I0) | discriminate].
+  - (* OSelect *)
+    set (r0 := emitr r _).
+    assert (I0 : inv2 (r_d r0)) by (apply inv2_emitq; [apply quiet_op | exact I]).
+    pose proof (good_select_task r0 k I0) as [Hs _].
+    destruct (select_task continue_ always r0 k) as [b r1]. cbn [snd] in Hs.
+    apply Both. apply inv2_emitq; [apply quiet_op | exact Hs].
+  - (* OExec *) apply Both. exact (inv2_emit r [EExecute k] I).
+  - (* OResult *) apply Both. apply inv2_process_result. apply inv2_emitq; [apply quiet_op | exact I].
+  - (* OHoldErr *) split; [apply (j_tr _ I) | discriminate].
+  - (* OFinish *)
+    apply Both. unfold finish. apply inv2_emit. apply inv2_emitq; [apply quiet_op | exact I].
+Qed.
+
+Definition sP2 (rs : rstate * option stop) : Prop :=
+  ok_tr ex (q_tr (r_d (fst rs))) /\ (live (snd rs) = true -> inv2 (r_d (fst rs))).
+
+Lemma step_op_sP2 fuel rs o : sP2 rs -> sP2 (step_op fuel rs o).
+Proof.
+  destruct rs as [r s]. intros [W I]. cbn [fst snd] in W, I. unfold Delayed.step_op.
+  destruct (live s) eqn:El.
+  - specialize (I eq_refl).
+    assert (Run : sP2 (let '(r1, s1) := run_op fuel r o in (r1, merge_stop s s1))).
+    { pose proof (run_op_inv2 fuel r o I) as [W1 I1].
+      destruct (run_op fuel r o) as [r1 s1]. cbn [fst snd] in *. split; cbn [fst snd]; auto.
+      intro Hl. apply I1. destruct s1; auto. }
+    destruct s as [x|]; [|exact Run].
+    destruct o; try exact Run.
+    split; cbn [fst snd].
+    + eapply ok_keepr; [apply keepr_emitr; reflexivity | exact W].
+    + intros _. apply inv2_emitq; [reflexivity | exact I].
+  - destruct o; try (split; cbn [fst snd]; [exact W | rewrite El; discriminate]).
+    split; cbn [fst snd]; [|rewrite El; discriminate].
+    cbn [Delayed.run_op fst]. eapply ok_keepr; [|exact W].
+    eapply keepr_trans; [apply keepr_emitr, quiet_op | apply keepr_finish].
+Qed.
+
+Lemma run_ops_sP2 fuel ops : forall rs, sP2 rs -> sP2 (fold_left (step_op fuel) ops rs).
+Proof.
+  induction ops as [|o ops IH]; intros rs H; simpl; auto. apply IH. apply step_op_sP2. exact H.
+Qed.
 End Trigger.
 
 (* ---------- initial states satisfy the second invariant ---------- *)
@@ -1355,22 +1581,41 @@ Proof.
   - rewrite io_tr0. constructor.
 Qed.
 
-Theorem after_trigger legacy creators wake_rank calc_rank continue_ always fuel d0 :
+Lemma ok_stop_marker ex tr s : ok_tr ex tr -> ok_tr ex (tr ++ stop_marker s).
+Proof. intro H. destruct s; simpl; rewrite ?app_nil_r; auto; constructor; auto; intros; discriminate. Qed.
+
+Theorem after_trigger v keys creators wake_rank calc_rank continue_ always fuel d0 :
   init_ok d0 ->
   forall pre c l t post e,
-    fst (run_serial legacy creators wake_rank calc_rank continue_ always fuel d0) = pre ++ ECreate c l t :: post ->
+    fst (run_serial v keys creators wake_rank calc_rank continue_ always fuel d0) = pre ++ ECreate c l t :: post ->
     l_executed (q_ld d0 l) = Some e -> final_in e pre.
 Proof.
   intros I0 pre c l t post e Heq Hex.
-  pose proof (serial_ok creators wake_rank calc_rank legacy (fun T => l_executed (q_ld d0 T)) continue_ always
+  pose proof (serial_ok creators wake_rank calc_rank v keys (fun T => l_executed (q_ld d0 T)) continue_ always
                 fuel (r_init d0) None (init_inv2 d0 I0)) as W.
   unfold run_serial in Heq.
-  destruct (serial legacy creators wake_rank calc_rank continue_ always fuel (r_init d0) None) as [r s].
+  destruct (serial v keys creators wake_rank calc_rank continue_ always fuel (r_init d0) None) as [r s].
   simpl in *.
   assert (Hok : ok_tr (fun T => l_executed (q_ld d0 T)) (q_tr (r_d r) ++ stop_marker s)).
-  { specialize (W ltac:(intros k Hk; discriminate)).
-    destruct s; simpl; rewrite ?app_nil_r; auto; constructor; auto; intros; discriminate. }
+  { apply ok_stop_marker. apply W. intros k Hk; discriminate. }
   eapply ok_tr_split; eauto.
+Qed.
+
+(* ... whatever the runner does with the dispatcher (every script) *)
+Theorem after_trigger_script v keys creators wake_rank calc_rank continue_ always fuel ops d0 :
+  init_ok d0 ->
+  forall pre c l t post e,
+    fst (run_script v keys creators wake_rank calc_rank continue_ always fuel ops d0) = pre ++ ECreate c l t :: post ->
+    l_executed (q_ld d0 l) = Some e -> final_in e pre.
+Proof.
+  intros I0 pre c l t post e Heq Hex.
+  assert (H0 : sP2 (fun T => l_executed (q_ld d0 T)) (r_init d0, None)).
+  { pose proof (init_inv2 d0 I0) as I2. split; cbn [fst snd r_init r_d]; [apply (j_tr _ _ I2) | intros _; exact I2]. }
+  pose proof (run_ops_sP2 creators wake_rank calc_rank v keys (fun T => l_executed (q_ld d0 T)) continue_ always fuel ops _ H0) as [W _].
+  unfold run_script, run_ops in Heq.
+  destruct (fold_left (step_op v keys creators wake_rank calc_rank continue_ always fuel) ops (r_init d0, None)) as [r s].
+  cbn [fst snd] in *.
+  eapply ok_tr_split; [apply ok_stop_marker; exact W | exact Heq | exact Hex].
 Qed.
 
 (* ---------- created tasks are ordinary table entries ---------- *)
@@ -1417,21 +1662,21 @@ Proof.
   - eexists. rewrite upd_same. split; [reflexivity|]. simpl. rewrite upd_same. reflexivity.
 Qed.
 
-Lemma load_branch_not_found legacy creators d me T d2 g f k :
-  create_part legacy creators d me T = Some d2 ->
+Lemma load_branch_not_found v keys creators d me T d2 g f k :
+  create_part v keys creators d me T = Some d2 ->
   q_rxg d2 me = Some g -> q_grp d2 g = Build_rgroup f [k] false -> l_basename (q_ld d2 T) = Some k ->
   q_tg d2 f = None ->
-  load_branch legacy creators d me T = LNotFound f d2.
+  load_branch v keys creators d me T = LNotFound f d2.
 Proof.
   intros H1 H2 H3 H4 H5. unfold load_branch. rewrite H1, H2, H3. simpl. rewrite H5, H4.
   unfold mem, rem. simpl. rewrite N.eqb_refl. simpl. reflexivity.
 Qed.
 
-Lemma load_branch_found legacy creators d me T d2 g f ks p :
-  create_part legacy creators d me T = Some d2 ->
+Lemma load_branch_found v keys creators d me T d2 g f ks p :
+  create_part v keys creators d me T = Some d2 ->
   q_rxg d2 me = Some g -> q_grp d2 g = Build_rgroup f ks false -> q_tg d2 f = Some p ->
   dt_loader (tab_get d2 me) = Some T -> dn_task (node_of d2 me) = tab_get d2 me -> In f (dt_file_dep (tab_get d2 me)) ->
-  exists d', load_branch legacy creators d me T = LReset d' /\ g_found (q_grp d' g) = true /\
+  exists d', load_branch v keys creators d me T = LReset d' /\ g_found (q_grp d' g) = true /\
              In p (dn_pt (node_of d' me)) /\ dn_pc (node_of d' me) = QStart /\ dt_loader (dn_task (node_of d' me)) = None.
 Proof.
   intros H1 H2 H3 H4 H5 H6 H7. unfold load_branch. rewrite H1, H2, H3. simpl. rewrite H4.
@@ -1454,13 +1699,27 @@ Proof.
   apply G. exact H7.
 Qed.
 
-Theorem creator_once_init creators wake_rank calc_rank continue_ always fuel d0 c :
-  init_ok d0 ->
-  (n_create c (fst (run_serial false creators wake_rank calc_rank continue_ always fuel d0)) <= 1)%nat.
+Theorem creator_once_init keys creators wake_rank calc_rank continue_ always fuel d0 c :
+  init_ok d0 -> keys_ok keys d0 ->
+  (n_create c (fst (run_serial VHead keys creators wake_rank calc_rank continue_ always fuel d0)) <= 1)%nat.
 Proof.
-  intro H. exact (creator_once creators wake_rank calc_rank (fun T => l_basename (q_ld d0 T)) (fun T => l_creator (q_ld d0 T))
-                   continue_ always fuel d0 c (init_inv1 d0 H)).
+  intros H HK. exact (creator_once keys creators wake_rank calc_rank (fun T => l_basename (q_ld d0 T)) (fun T => l_creator (q_ld d0 T))
+                       continue_ always fuel d0 c (init_inv1 keys d0 H HK)).
 Qed.
+
+Theorem creator_once_script_init keys creators wake_rank calc_rank continue_ always fuel ops d0 c :
+  init_ok d0 -> keys_ok keys d0 ->
+  (n_create c (fst (run_script VHead keys creators wake_rank calc_rank continue_ always fuel ops d0)) <= 1)%nat.
+Proof.
+  intros H HK. exact (creator_once_script keys creators wake_rank calc_rank (fun T => l_basename (q_ld d0 T)) (fun T => l_creator (q_ld d0 T))
+                       continue_ always fuel ops d0 c (init_inv1 keys d0 H HK)).
+Qed.
+
+(* the node of a placeholder whose table entry was replaced meanwhile (a stale node: tasks[to_load] has no
+   loader any more) goes through the loader branch without evaluating anything, whatever its own copy says *)
+Lemma stale_node_no_evaluation keys creators d me T :
+  dt_loader (tab_get d (to_load_of d me T)) = None -> create_part VHead keys creators d me T = Some d.
+Proof. intro H. unfold create_part, loader_read. rewrite H. reflexivity. Qed.
 
 Lemma not_found_exit r f : exit_code r (StopNotFound f) = 3.
 Proof. reflexivity. Qed.
